@@ -321,7 +321,18 @@ def r_json_read(ctx):
         ok = isinstance(rv, tuple) and rv[0] == "mcall" and len(rv[3]) == 1 and not rv[4]
         if ok:
             recv, meth, arg = rv[1], rv[2], rv[3][0]
-            ok_cls = recv[0] == "idx" and recv[2] in [("idx", p_, K("type")) for p_ in parsed]
+            keys = [("idx", p_, K("type")) for p_ in parsed]
+            ok_cls = recv[0] == "idx" and recv[2] in keys
+            if not ok_cls and recv[0] == "phi":
+                # the table read through .get(): a chain `Cls if key == "Cls" else ...` ending in None (R-JSON-FIELDS decides
+                # that every name of the table maps to the class of that name)
+                c_, ok_cls = recv, True
+                while isinstance(c_, tuple) and c_ and c_[0] == "phi":
+                    g_ = c_[1]
+                    ok_cls = ok_cls and is_app(g_, "==") and len(g_) == 4 and g_[2] in keys and is_const(g_[3]) \
+                        and c_[2] == ("class", g_[3][1])
+                    c_ = c_[3]
+                ok_cls = ok_cls and c_ == NONE
             ok_arg = (meth == "model_validate_json" and arg == doc) or (meth == "model_validate" and arg in parsed)
             ok = ok_cls and ok_arg
         if ok:
